@@ -50,6 +50,9 @@ impl Property for Prop {
                 let rest = d - 2;
                 let total = a.pow(rest as u32);
                 for idx in 0..total {
+                    if idx % 64 == 0 && crate::expired() {
+                        return;
+                    }
                     h.truncate(2);
                     let mut x = idx;
                     for _ in 0..rest {
